@@ -9,6 +9,7 @@ BoolRes(r, v) == r.t = "b" /\ r.v = v
 
 \* --------------------------------------------------------------------------
 \* C07
+IsMaxMag(w) == w = MaxFinite(FALSE) \/ w = MaxFinite(TRUE)
 TryFromFails(a, b, r) ==
   \* C01: whatever the checked constructor hands out for finite words must be normalised
   (IF r.t = "tf" /\ a.k = "f" /\ b.k = "f" THEN C01Of(r) ELSE {}) \cup
@@ -16,11 +17,15 @@ TryFromFails(a, b, r) ==
   THEN Chk(r.t = "tf", "C07", "valid_pair_rejected")
        \cup (IF r.t = "tf" THEN Chk(r.x = TF(a, b), "C07", "words_not_preserved") ELSE {})
   ELSE Chk(r.t = "err", "C07", "invalid_pair_accepted")
+       \* C12: MAX / MIN are the extreme values for which is_valid() can hold: nothing beside +-f64::MAX beyond them is accepted
+       \cup (IF IsMaxMag(a) THEN Chk(r.t = "err", "C12", "value_beyond_max_min_accepted") ELSE {})
 
 BaseC07Fails(op, A, r) ==
   CASE op = "try_from" -> TryFromFails(A[1].w, A[2].w, r)
     [] op = "no_overlap" -> Chk(BoolRes(r, NoOverlapDef(A[1].w, A[2].w)), "C07", "no_overlap_differs_from_definition")
+                            \cup (IF IsMaxMag(A[1].w) /\ ~NoOverlapDef(A[1].w, A[2].w) THEN Chk(BoolRes(r, FALSE), "C12", "value_beyond_max_min_accepted") ELSE {})
     [] op = "is_valid" -> Chk(BoolRes(r, Valid(A[1].x)), "C07", "is_valid_differs_from_definition")
+                          \cup (IF IsMaxMag(A[1].x.hi) /\ ~Valid(A[1].x) THEN Chk(BoolRes(r, FALSE), "C12", "value_beyond_max_min_accepted") ELSE {})
     [] op = "into_pair" -> Chk(r.t = "ff" /\ r.w = A[1].x.hi /\ r.w2 = A[1].x.lo, "C07", "words_not_returned")
 
 \* --------------------------------------------------------------------------
